@@ -69,7 +69,13 @@ void GammaDiscreteDistribution::fireParameterChanged(const ParameterList& parame
   alpha_ = getParameterValue("alpha");
   beta_ = getParameterValue("beta");
   if (hasParameter("offset"))
-    offset_ = getParameterValue("offset");
+  {
+    double offset = getParameterValue("offset");
+    // the support starts at the offset: the domain follows it, unless it has been restricted to start further right
+    if (intMinMax_->getLowerBound() == offset_ || intMinMax_->getLowerBound() < offset)
+      intMinMax_->setLowerBound(offset, true);
+    offset_ = offset;
+  }
   ga1_ = exp(RandomTools::lnGamma(alpha_ + 1) - RandomTools::lnGamma(alpha_));
 
   discretize();
